@@ -10,6 +10,12 @@ BASES = {"chain": {"A": [], "B": ["A"], "C": ["B"]}, "skip": {"A": [], "B": ["A"
          "diamondCB": {"A": [], "B": ["A"], "C": ["A"], "D": ["C", "B"]}}
 
 
+META = {"m1": dict(label="L1", precedence=1.0, pickle_default_value=False, allow_refs=True, nested_refs=True, per_instance=False),
+        "m2": dict(label="L2", precedence=2.0, pickle_default_value=False, allow_refs=True, nested_refs=False, per_instance=True),
+        "None": dict(label=None, precedence=None, pickle_default_value=True, allow_refs=False, nested_refs=False, per_instance=True)}
+NMETA = {"n1": dict(step=2, softbounds=(0, 9)), "None": dict(step=None, softbounds=None)}
+
+
 def make_param(d):
     kw = {}
     if d["default"] != "U":
@@ -26,6 +32,10 @@ def make_param(d):
         kw["allow_None"] = True
     if d["inst"] != "U":
         kw["instantiate"] = True
+    if d.get("meta", "U") != "U":
+        kw.update(META[d["meta"]])
+    if d.get("nmeta", "U") != "U" and d["ty"] in ("Number", "Integer"):
+        kw.update(NMETA[d["nmeta"]])
     return getattr(param, d["ty"])(**kw)
 
 
@@ -92,6 +102,10 @@ def replay(beh, opts):
                    "incl": "ii" if getattr(p, "inclusive_bounds", (True, True)) == (True, True) else "xx",
                    "doc": "None" if p.doc is None else p.doc, "constant": "T" if p.constant else "F",
                    "an": "T" if p.allow_None else "F", "inst": "T" if p.instantiate else "F"}
+            for k, want in list(META[e.get("meta", "None")].items()) + (list(NMETA[e.get("nmeta", "None")].items()) if d["ty"] in ("Number", "Integer") else []):
+                have = getattr(p, "_label" if k == "label" else k)
+                if have != want or type(have) is not type(want):
+                    return fail("slot_" + k, "%s.param['x'].%s is %r, spec expects %r (decls %s)" % (c, k, have, want, decl), want, have)
             for k, v in got.items():
                 if e[k] != v:
                     return fail("slot_" + k, "%s.param['x'].%s is %s, spec expects %s (decls %s)" % (
